@@ -149,9 +149,10 @@ def build(S, tier):
             else:
                 # kinetic temperature 2 KE'/dof equals kT * r/(r+1e-15) with r the unscaled kinetic temperature
                 ke1 = R(at.kinetic(p.interp))
-                r = sum((R(z.get((a, d))) * F_sqrt(R(at.masses.get((a,))) * (T * kB))) ** 2 / (2 * R(at.masses.get((a,)))) for a in range(at.k) for d in range(3)) * 2 / (3 * at.k)
+                dof = z3.ToReal(at.dof.t)
+                r = sum((R(z.get((a, d))) * F_sqrt(R(at.masses.get((a,))) * (T * kB))) ** 2 / (2 * R(at.masses.get((a,)))) for a in range(at.k) for d in range(3)) * 2 / dof
                 lem = [F_sqrt(R(at.masses.get((a,))) * (T * kB)) * F_sqrt(R(at.masses.get((a,))) * (T * kB)) == R(at.masses.get((a,))) * (T * kB) for a in range(at.k)]
-                S.prove_rational(f"{MB}#ensures.forced_kinetic_temperature@{i}", [(2 * ke1 / (3 * at.k) * (r + z3.RealVal("1/1000000000000000")), T * kB * r)], hyps=p.pc + lem + [r > 0])
+                S.prove_rational(f"{MB}#ensures.forced_kinetic_temperature@{i}", [(2 * ke1 / dof * (r + z3.RealVal("1/1000000000000000")), T * kB * r)], hyps=p.pc + lem + [r > 0])
 
     # ------------------------------------------------------------------ reference kinetic energy order
     HM = "quansino.moves.displacement.HamiltonianDisplacementMove"
@@ -171,7 +172,7 @@ def build(S, tier):
                 return self
             raise AttributeError(name)
 
-    def run_move(I):
+    def run_move(I, refuse_first=False):
         atoms = AtomsMD(I)
         ctx = mk_ctx(I, atoms)
         def refresh(I_):
@@ -184,8 +185,16 @@ def build(S, tier):
         dist = Recorder("distribution", atoms, refresh)
         integrator = Recorder("integrate", atoms, integ)
         mv = I.call(I.get_class(HM), [], {"distribution": dist, "operation": integrator})
+        if refuse_first:
+            answers = [False, True]
+            def chk(I_, a, k):
+                atoms.log.append(("call", "check_move"))
+                return answers.pop(0)
+            mv.attrs["check_move"] = Builtin("check_move", chk)
+            ctx.attrs["last_results"] = {}
+            atoms.calc_results_restored = 0
         r = I.call(mv, [ctx], {})
-        return dict(r=r, atoms=atoms, ctx=ctx)
+        return dict(r=r, atoms=atoms, ctx=ctx, ke_now=atoms.kinetic(I))
 
     fq = HM + ".attempt_displacement"
     paths = S.explore(run_move, fq)
@@ -202,4 +211,22 @@ def build(S, tier):
         S.prove(f"{fq}#ensures.kinetic_reference_taken_after_refresh_before_integration@{i}",
                 log == [("call", "distribution"), ("get_kinetic_energy", 1), ("call", "integrate")] and v["r"] is True, kind="ensures", why=str(log))
         S.prove(f"{fq}#ensures.reference_stored_in_context@{i}", "last_kinetic_energy" in v["ctx"].attrs, kind="ensures")
+    # a refused first attempt: the second attempt refreshes the momenta again and the reference is that of the second draw
+    for i, p in enumerate(S.explore(lambda I: run_move(I, True), fq + "[retry]")):
+        S.adopt(p, prefix="[retry]")
+        if p.status == "unsupported":
+            continue
+        if p.status != "return":
+            S.prove(f"{fq}#noraise[retry]@{i}", False, kind="noraise", why=f"raises {p.exc!r}")
+            continue
+        v = p.value
+        log = [e for e in v["atoms"].log if isinstance(e, tuple) and e[0] in ("call", "get_kinetic_energy")]
+        calls = [e for e in log if e[0] == "call"]
+        S.prove(f"{fq}#ensures.every_attempt_refreshes_then_integrates[retry]@{i}",
+                [c[1] for c in calls] == ["distribution", "integrate", "check_move", "distribution", "integrate", "check_move"], kind="ensures", why=str(calls))
+        kes = [e for e in log if e[0] == "get_kinetic_energy"]
+        # the last reference must be taken between the second refresh and the second integration
+        idx = [j for j, e in enumerate(log) if e == ("call", "distribution")]
+        ok = len(idx) == 2 and len(log) > idx[1] + 2 and log[idx[1] + 1][0] == "get_kinetic_energy" and log[idx[1] + 2] == ("call", "integrate")
+        S.prove(f"{fq}#ensures.reference_is_that_of_the_last_refresh[retry]@{i}", ok, kind="ensures", why=str(log))
     return meta
